@@ -62,6 +62,10 @@ def handleSched (l : Line) : List Verdict :=
         cmp "new login's cookie authenticated" newauth (match sEnd.sess with | some v => v.owner != 0 | none => false) ++
         cmp "presented refresh tokens" (presented.map fun s => (s.splitOn "/").headD "") (sEnd.presented.map fun g => s!"rt{g}") ++
         cmp "lock left" lockafter sEnd.lock.isSome ++
+        -- what each proxied request handed to the upstream (C07: the previous or the new token, never anything else) - as a multiset
+        (let modelUp := (pk.filter fun (q, k) => k == .proxy && (sEnd.procs q).pc == .done && (sEnd.procs q).status == 200).map fun (q, _) =>
+            match (sEnd.procs q).served with | some g => s!"at{g}" | none => "-"
+         cmp "tokens handed to the upstream" (uptokens.mergeSort (· ≤ ·)) (modelUp.mergeSort (· ≤ ·))) ++
         (pk.foldl (fun acc (p, _) =>
           let name := match p with | 0 => "A" | 1 => "B" | 2 => "C" | _ => "D"
           acc ++ (if (sEnd.procs p).pc == .done then cmp s!"status of {name}" (stOf name) (some (toString (sEnd.procs p).status)) else [s!"process {name} not finished in the model"])) [])
@@ -93,7 +97,9 @@ def handleSched (l : Line) : List Verdict :=
          [("C07.grants_within_cooldown." ++ store, s!"more than one successful refresh grant within one schedule: {presented}"),
           ("C08.during_cooldown", s!"a refresh grant was performed while the cooldown of the previous one was running: {presented}")] else []) ++
       (if exists_ && store == "redis" && atn != "undecryptable" && genOf atn != genOf rtn then [("C07.pair_split", s!"stored {atn} with {rtn}")] else []) ++
-      (if !crashed && exists_ && store == "redis" && !(uptokens.all fun t => t == "-" || t == "at0" || t == atn) then [("C07.served_other_token", s!"upstream saw {uptokens}, stored {atn}")] else []) ++
+      -- every concurrent request is served with the previous (at0) or the new token (at1, which exists only if the provider granted a refresh in this schedule)
+      (if !crashed && store == "redis" && !(uptokens.all fun t => t == "-" || t == "at0" || (t == "at1" && presented.any (·.endsWith "/ok"))) then
+         [("C07.served_other_token", s!"upstream saw {uptokens}; provider log {presented}")] else []) ++
       (if exists_ && store == "redis" && ttl ≤ 0 then [("C10.no_ttl.session", "session entry without expiry at the end of the schedule")] else []) ++
       (if exists_ && ttl > maxlife then [("C10.ttl_beyond_lifetime", s!"ttl {ttl}")] else []) ++
       (if lockafter then [("C10.lock_leak", if crashed then "lock entry still present after the lease" else "lock entry left behind although every refresh finished")] else []) ++
